@@ -32,6 +32,9 @@ class FlatArr:
         if isinstance(idx, SymSeq) and getattr(idx, "unravel_of", None) is not None:
             flat = idx.unravel_of
             return FlatArr(flat.n, lambda i: self.f(flat.f(i)))
+        if isinstance(idx, tuple) and idx and all(isinstance(q, Part) for q in idx) and all(q.flat is idx[0].flat and q.k == n_ and q.rank == len(idx) for n_, q in enumerate(idx)):
+            flat = idx[0].flat  # every axis' index array of ONE unravel_index call, in axis order
+            return FlatArr(flat.n, lambda i: self.f(flat.f(i)))
         raise Untranslatable("array index that is not tuple(unravel_index(...))")
 
     def _bin(self, o, op):
@@ -63,11 +66,11 @@ class Parts(SymSeq):
 
 
 class Part:
-    def __init__(self, flat, k):
-        self.flat, self.k = flat, k
+    def __init__(self, flat, k, rank=None):
+        self.flat, self.k, self.rank = flat, k, rank
 
 
-def perm_lib(it, P, PINV, is_perm):
+def perm_lib(it, P, PINV, is_perm, concrete_rank=None):
     lib = it.lib.overrides
     rank = z3.Int("rank")
 
@@ -97,7 +100,7 @@ def perm_lib(it, P, PINV, is_perm):
             return NotImplemented
 
     lib["jax.numpy.arange"] = lambda m, dtype=None: IVec(lift(m), lambda i: i)
-    lib["jax.numpy.unravel_index"] = lambda flat, shape: Parts(flat, rank)
+    lib["jax.numpy.unravel_index"] = (lambda flat, shape: Parts(flat, rank)) if concrete_rank is None else (lambda flat, shape: tuple(Part(flat, k, concrete_rank) for k in range(concrete_rank)))
     lib["jax.numpy.reshape"] = lambda a, shape: a
     lib["jax.numpy.argsort"] = lambda v: PermArr(v.n, lambda i: PINV(i))
 
@@ -112,12 +115,37 @@ def perm_lib(it, P, PINV, is_perm):
 
 @family("simple/Permute", ["C01", "C02", "C07", "C11"])
 def permute(ctx):
-    it = ctx.interp
+    """any rank (symbolic) when the constructor handles the per-axis index arrays uniformly; if it loops over them explicitly the
+    same obligations are generated for ranks 1, 2 and 3 (bounded in rank, unbounded in size)"""
+    try:
+        _permute(ctx, ctx.interp, None)
+    except Untranslatable:
+        del ctx.obligations[:]
+        for r in (1, 2, 3):
+            _permute(ctx, ctx.new_interp(), r)
+
+
+def _permute(ctx, it, concrete_rank):
     props = ["C01", "C02", "C07", "C11"]
     Q = "flowjax.bijections.utils.Permute"
     P, PINV = z3.Function("permutation", I, I), z3.Function("argsort_of_permutation", I, I)
     is_perm = z3.Bool("is_a_permutation")
-    PermArr = perm_lib(it, P, PINV, is_perm)
+    PermArr = perm_lib(it, P, PINV, is_perm, concrete_rank)
+    if concrete_rank is not None:
+        _oblige, _control, _ctx0 = ctx.oblige, ctx.control, ctx
+
+        class _Tagged:
+            """obligation ids carry the rank in the bounded fall-back"""
+            def __getattr__(self, name):
+                return getattr(_ctx0, name)
+
+            def oblige(self, oid, *a, **k):
+                return _oblige(oid.replace("Permute", f"Permute[rank={concrete_rank}]", 1), *a, **k)
+
+            def control(self, oid, *a, **k):
+                return _control(oid.replace("Permute", f"Permute[rank={concrete_rank}]", 1), *a, **k)
+
+        ctx = _Tagged()
     it.global_overrides["flowjax.bijections.utils"] = {"arraylike_to_array": lambda a, *r, **k: a}
     cls = it.repo_class(Q)
     p = PermArr(n, lambda i: P(i))
